@@ -325,6 +325,18 @@ def link_loop(ctx, cfg, body, lp, info, role, rule):
                     src_ok = bool(room)
                 else:
                     det = "position field '%s' of owner %s; slots iterate that owner's storage: %s" % (o["names"][fidx], adt.split("::")[-1], src_ok)
+                # which end of the claimed range moves, and which way (see ownership.link_closure)
+                from .ownership import LOW_POS, HIGH_POS
+                pname = o["names"][fidx]
+                back = bool(lp.backward)
+                if find_in(lp.pipe, lambda t: isinstance(t, tuple) and len(t) >= 3 and t[0] == "V" and t[1] == "iter" and t[2] == "rev"):
+                    back = not back
+                ds = info.get("deltas", {}).get(pid, set())
+                if role == "consumer" and ds and lp.pipe is not None and (pname in LOW_POS or pname in HIGH_POS):
+                    want = -1 if back else 1
+                    fits = ds == {want} and ((pname in HIGH_POS) if back else (pname in LOW_POS))
+                    det += "; travelling %s, position '%s' moves by %s: %s" % ("backward" if back else "forward", pname, sorted(ds), "fits" if fits else "DOES NOT FIT")
+                    src_ok = src_ok and fits
                 if obase[0] == "local":
                     live = True
                     for e, st in info["at_foreign"]:
